@@ -240,11 +240,12 @@ def RtCtx.answer (c : RtCtx) (σ : CState) : Quest → Option Bool
       | some v => some (v.v ≠ 0)
   | .full i => some ((σ.str i).counter == (c.ty i).cap)
 
-/-- Effect of any event, answered questions included: the out-of-space test is preceded by the
-    on-demand allocation, a condition whose evaluation is undefined is recorded as a fault. -/
+/-- Effect of any event, answered questions included: the out-of-space test itself changes nothing
+    (the on-demand allocation happens in the not-full branch, with the write), a condition whose
+    evaluation is undefined is recorded as a fault. -/
 def RtCtx.applyEv (c : RtCtx) (isStart : Bool) (σ : CState) : MEv → CState
   | .act a => c.apply σ isStart a
-  | .asked (.full i) _ => c.onDemandAlloc σ i
+  | .asked (.full _) _ => σ
   | .asked (.cond e) _ =>
       match c.answer σ (.cond e) with
       | none => σ.addFault "undefined behaviour in condition"
@@ -326,7 +327,8 @@ def RtCtx.start (c : RtCtx) (σ0 : CState) : CState × String :=
           { base with bytes := bytes, counter := bs.length },
     state := c.M.start }
   let ctx : ArmCtx := { o := c.semOpts, x := 0, adv := 0,
-                        redispatch := fun st adv => .leaf (.ret "OK" st adv) }
+                        redispatch := fun st adv => .leaf (.ret "OK" st adv),
+                        oosConst := fun st => .leaf (.ret "OK" st 0) }
   let t := c.M.startActs.tree ctx c.M.start (fun st => .leaf (.ret "OK" st 0)) (fun st => .leaf (.ret "OK" st 0))
   let (σ', l) := c.runTree true t σ
   match l with
